@@ -71,7 +71,7 @@ def noBlankInside (t : Str) (n : Nat) : Bool :=
 def hasMultilineExtra (d : Doc) : Bool := d.paras.any fun p => p.any fun f => f.kind == 5 && !f.conts.isEmpty
 
 def holdsWith (excludeK1 : Bool) (d : Doc) (o : Obs) : Bool :=
-  !wf d || (excludeK1 && hasMultilineExtra d) ||
+  !wf d true || (excludeK1 && hasMultilineExtra d) ||
   (match o with
    | .error _ => false
    | .ok f =>
